@@ -142,6 +142,39 @@ Proof.
   exists 1, 4, 1, 8. vm_compute. repeat split; auto.
 Qed.
 
+
+(* ---- yield_progress: "every cached resource that declared a dependency ... is
+   prepared again AFTERWARDS": the cascade terminates.  After any history, a
+   bounded number of further event-loop turns empties the ready queue, and the
+   system is then coherent.  The bound is the weight of the heaviest handle that
+   is ready ([maxw]; a done-callback weighs 1, the last step of a cancelled task
+   2, a step of the live monitor of resource k weighs k+3: what a handle leaves
+   behind is strictly lighter, because a monitor only wakes monitors of its
+   subscribers, which have smaller indices). *)
+Theorem C16_yield_progress : forall ord, set_order ord -> forall ops n, history ops ->
+  maxw (run ord ops) <= n ->
+  ready (run ord (ops ++ repeat Yield n)) = [] /\ coherent (run ord (ops ++ repeat Yield n)).
+Proof. exact yield_progress_thm. Qed.
+
+(* ... in particular N+2 turns suffice when every re-prepare task belongs to a
+   resource with index < N.  (PARTIAL in one respect: that the task keys are
+   bounded by the keys offered in the history is left as a hypothesis here; it
+   holds because tasks are only created by Offer for the offered key.) *)
+Theorem C16_yield_progress_keys_partial : forall ord, set_order ord -> forall ops N, history ops ->
+  (forall tid, t_key (tasks (run ord ops) tid) < N) ->
+  ready (run ord (ops ++ repeat Yield (N + 2))) = [] /\
+  coherent (run ord (ops ++ repeat Yield (N + 2))).
+Proof. exact yield_progress_keys_thm. Qed.
+
+(* non-vacuity of the bound: a chain 0 -> 1 -> 2 whose bottom changes needs
+   several turns; the bound (5) is not far off *)
+Example C16_progress_example :
+  let ops := [Offer 2 1 []; Offer 1 1 [2]; Offer 0 1 [1]; Yield; Offer 2 2 []] in
+  maxw (run id_order ops) = 4 /\
+  ready (run id_order (ops ++ [Yield])) <> [] /\
+  ready (run id_order (ops ++ [Yield; Yield])) = [].
+Proof. vm_compute. repeat split; discriminate. Qed.
+
 Print Assumptions C16_watch_cached.
 Print Assumptions C16_watch_uncached.
 Print Assumptions C16_no_stale_watcher.
@@ -150,3 +183,5 @@ Print Assumptions C16_pending.
 Print Assumptions C16_seen_covers_deps.
 Print Assumptions C16_idle_coherent.
 Print Assumptions C16_quiescent_coherent.
+Print Assumptions C16_yield_progress.
+Print Assumptions C16_yield_progress_keys_partial.
